@@ -21,7 +21,7 @@ type C15Case struct {
 }
 
 var c15Kinds = []string{"absent", "present-valid", "present-garbage", "unwritable-EACCES", "unwritable-EROFS",
-	"dir-at-output", "log-unwritable", "log-is-dir", "mid-write", "stat-src-error", "open-EMFILE", "commit-error", "output-links-to-setup", "stdout-unwritable", "interrupted"}
+	"dir-at-output", "log-unwritable", "log-is-dir", "mid-write", "stat-src-error", "open-EMFILE", "commit-error", "output-links-to-setup", "stdout-unwritable", "interrupted", "go-tool-failing"}
 
 var outVariants = []string{"same-dir", "subdir", "other-pkg", "outside", "parent-missing", "abs-same-dir", "dotdot-outside"}
 
@@ -88,6 +88,7 @@ func genC15(cfg Config, ws *WorldSet, i, perWorld int) C15Case {
 	}
 	c := C15Case{World: world}
 	stdoutMode := ""
+	var runEnv []string
 	steps := []Step{{Op: "symlink", Path: "{W}/elsewhere/modlink", Data: []byte("{W}/mod")}, {Op: "write", Path: "{W}/elsewhere/outside/keep.txt", Data: []byte("a directory that a lexically collapsed ../outside would name\n")}}
 	plan := &sim.Plan{Markers: genMarkers(r, 4)}
 	base := strings.SplitN(kind, "/", 2)[0]
@@ -178,6 +179,30 @@ func genC15(cfg Config, ws *WorldSet, i, perWorld int) C15Case {
 			default:
 				plan.Faults = append(plan.Faults, sim.Fault{Op: "OUTPUT-OPEN", Path: iv.OutPath, Kind: sig})
 			}
+		case "go-tool-failing":
+			// the subprocess convergen depends on (go list, go env) is the one part of
+			// its I/O that no seam intercepts: a stand-in go command first in PATH fails,
+			// answers rubbish, dies, or there is none at all. However the run ends then,
+			// the frame holds, and if it ends in an error the output is as it was
+			if r.Chance(2, 3) {
+				present()
+			}
+			script := ""
+			switch r.Intn(4) {
+			case 0:
+				script = "#!/bin/sh\necho 'go: cannot find GOROOT directory' >&2\nexit 2\n"
+			case 1:
+				script = "#!/bin/sh\necho '{\"ImportPath\": not json'\nexit 0\n"
+			case 2:
+				script = "#!/bin/sh\nkill -9 $$\n"
+			}
+			steps = append(steps, Step{Op: "mkdir", Path: "{W}/fakebin"})
+			if script != "" {
+				steps = append(steps, Step{Op: "write", Path: "{W}/fakebin/go", Data: []byte(script)}, Step{Op: "chmod", Path: "{W}/fakebin/go", K: 0o755})
+				runEnv = append(runEnv, "PATH={W}/fakebin:/usr/bin:/bin")
+			} else {
+				runEnv = append(runEnv, "PATH={W}/fakebin")
+			}
 		case "stat-src-error":
 			if r.Bool() {
 				present()
@@ -194,7 +219,7 @@ func genC15(cfg Config, ws *WorldSet, i, perWorld int) C15Case {
 			bin = "plain"
 		}
 	}
-	run := Step{Op: "run", Inv: &iv, Bin: bin, GMP: sim.Pick(r, []int{0, 1, 2, 4}), HomeRel: "home", Stdout: stdoutMode}
+	run := Step{Op: "run", Inv: &iv, Bin: bin, GMP: sim.Pick(r, []int{0, 1, 2, 4}), HomeRel: "home", Stdout: stdoutMode, Env: runEnv}
 	if bin == "sim" {
 		run.Plan = plan
 	}
